@@ -92,20 +92,42 @@ Theorem Cli_parse_print_roundtrip :
 Proof. exact cli_parse_print_roundtrip. Qed.
 Print Assumptions Cli_parse_print_roundtrip.
 
-(* the same for `parse --as theory`, PARTIAL: C15 is proved at token level; that the model lexer reads
-   the printed bytes back as the printed tokens is tied by correspondence only (the fol_roundtrip ops)
-   and is an explicit hypothesis here.  known_class_theory = F7b, C15-RIMP. *)
-Theorem Cli_parse_theory_roundtrip_partial :
+(* the same for `parse --as theory | specification | user-guide`: [out] is the rendering of the parsed
+   tree t and -- outside the known classes (F7b: identifier with a keyword literal at its front in
+   formula-start position; C15-RIMP: `p <- 1 = 1`) -- feeding [out] back re-parses to the same tree and
+   prints the same bytes (C15 at token level + the lexical step C15_lex_render of Properties/C15text.v). *)
+Theorem Cli_parse_theory_roundtrip :
   forall (s out : string),
   run_cli (Parse Theory) s = Stdout out ->
   exists t : theory,
     FolParse.parse_theory_str s = FolParse.PR_ok t /\
     out = FolPrint.show_theory t /\
     (FolClass.known_class_theory t = None ->
-     FolLex.lex out = Some (FolPrint.strip (FolPrint.print_theory true t)) ->
      FolParse.parse_theory_str out = FolParse.PR_ok t /\ run_cli (Parse Theory) out = Stdout out).
-Proof. exact cli_parse_theory_roundtrip_partial. Qed.
-Print Assumptions Cli_parse_theory_roundtrip_partial.
+Proof. exact cli_parse_theory_roundtrip. Qed.
+Print Assumptions Cli_parse_theory_roundtrip.
+
+Theorem Cli_parse_specification_roundtrip :
+  forall (s out : string),
+  run_cli (Parse Specification) s = Stdout out ->
+  exists t : specification,
+    FolParse.parse_spec_str s = FolParse.PR_ok t /\
+    out = FolPrint.show_spec t /\
+    (FolClass.known_class_spec t = None ->
+     FolParse.parse_spec_str out = FolParse.PR_ok t /\ run_cli (Parse Specification) out = Stdout out).
+Proof. exact cli_parse_specification_roundtrip. Qed.
+Print Assumptions Cli_parse_specification_roundtrip.
+
+Theorem Cli_parse_user_guide_roundtrip :
+  forall (s out : string),
+  run_cli (Parse UserGuide) s = Stdout out ->
+  exists t : user_guide,
+    FolParse.parse_ug_str s = FolParse.PR_ok t /\
+    out = FolPrint.show_ug t /\
+    (FolClass.known_class_ug t = None ->
+     FolParse.parse_ug_str out = FolParse.PR_ok t /\ run_cli (Parse UserGuide) out = Stdout out).
+Proof. exact cli_parse_user_guide_roundtrip. Qed.
+Print Assumptions Cli_parse_user_guide_roundtrip.
 
 (* `anthem analyze --property tightness FILE` printed [out]: [out] is "true\n" or "false\n", and it
    is "true\n" exactly when the positive predicate dependency graph of the parsed program has no
